@@ -326,13 +326,34 @@ func (c *c20Case) runRealServer() error {
 	b := lime.NewServerBuilder().Name("postmaster").Domain("verif.test").Instance("srv").
 		EnableGuestAuthentication().ListenInProcess(addr).ChannelBufferSize(8)
 	c.registerOn(rec,
-		func(p lime.MessagePredicate, f lime.MessageHandlerFunc) { b.MessageHandlerFunc(p, f) },
-		func(p lime.NotificationPredicate, f lime.NotificationHandlerFunc) { b.NotificationHandlerFunc(p, f) },
+		// a handler without predicate goes through the builder's catch-all method
+		func(p lime.MessagePredicate, f lime.MessageHandlerFunc) {
+			if p == nil {
+				b.MessagesHandlerFunc(f)
+			} else {
+				b.MessageHandlerFunc(p, f)
+			}
+		},
+		func(p lime.NotificationPredicate, f lime.NotificationHandlerFunc) {
+			if p == nil {
+				b.NotificationsHandlerFunc(f)
+			} else {
+				b.NotificationHandlerFunc(p, f)
+			}
+		},
 		func(p lime.RequestCommandPredicate, f lime.RequestCommandHandlerFunc) {
-			b.RequestCommandHandlerFunc(p, f)
+			if p == nil {
+				b.RequestCommandsHandlerFunc(f)
+			} else {
+				b.RequestCommandHandlerFunc(p, f)
+			}
 		},
 		func(p lime.ResponseCommandPredicate, f lime.ResponseCommandHandlerFunc) {
-			b.ResponseCommandHandlerFunc(p, f)
+			if p == nil {
+				b.ResponseCommandsHandlerFunc(f)
+			} else {
+				b.ResponseCommandHandlerFunc(p, f)
+			}
 		})
 	srv := b.Build()
 	serveDone := make(chan error, 1)
@@ -401,13 +422,34 @@ func (c *c20Case) runRealClient() error {
 	defer func() { inprocMu.Lock(); _ = l.Close(); inprocMu.Unlock() }()
 	b := lime.NewClientBuilder().UseInProcess(addr, 8).ChannelBufferSize(8).Name("cli").Domain("verif.test").Instance("i1")
 	c.registerOn(rec,
-		func(p lime.MessagePredicate, f lime.MessageHandlerFunc) { b.MessageHandlerFunc(p, f) },
-		func(p lime.NotificationPredicate, f lime.NotificationHandlerFunc) { b.NotificationHandlerFunc(p, f) },
+		// a handler without predicate goes through the builder's catch-all method
+		func(p lime.MessagePredicate, f lime.MessageHandlerFunc) {
+			if p == nil {
+				b.MessagesHandlerFunc(f)
+			} else {
+				b.MessageHandlerFunc(p, f)
+			}
+		},
+		func(p lime.NotificationPredicate, f lime.NotificationHandlerFunc) {
+			if p == nil {
+				b.NotificationsHandlerFunc(f)
+			} else {
+				b.NotificationHandlerFunc(p, f)
+			}
+		},
 		func(p lime.RequestCommandPredicate, f lime.RequestCommandHandlerFunc) {
-			b.RequestCommandHandlerFunc(p, f)
+			if p == nil {
+				b.RequestCommandsHandlerFunc(f)
+			} else {
+				b.RequestCommandHandlerFunc(p, f)
+			}
 		},
 		func(p lime.ResponseCommandPredicate, f lime.ResponseCommandHandlerFunc) {
-			b.ResponseCommandHandlerFunc(p, f)
+			if p == nil {
+				b.ResponseCommandsHandlerFunc(f)
+			} else {
+				b.ResponseCommandHandlerFunc(p, f)
+			}
 		})
 	ctx, cancel := context.WithTimeout(context.Background(), 5*time.Second)
 	defer cancel()
